@@ -59,3 +59,26 @@ pub fn run(a: &Args) {
         println!("cell{}=children:{};sup:{};killed:{};status:{}", i, kids, s, lc::verif_signal_taken(&husks[i].cell) as u8, husks[i].cell.get_status() as u8);
     }
 }
+
+/// link_race : a `link` of another thread is parked on the tree lock while the child goes through its exit (status Stopping, then Stopped - the steps of
+/// ActorLifecycleGuard::cleanup that need no lock; the child has neither children nor supervisor, so the locked steps do nothing); then the lock is released.
+/// A link that decided on statuses read before it held the lock now links a stopped actor.
+pub fn link_race(_a: &Args) {
+    let mut child = lc::husk(None, 2);
+    let mut sup = lc::husk(None, 2);
+    child.forget_guard();
+    sup.forget_guard();
+    let guard = lc::verif_lock_tree();
+    let (c2, s2) = (child.cell.clone(), sup.cell.clone());
+    let th = std::thread::spawn(move || lc::verif_link(&c2, &s2));
+    std::thread::sleep(std::time::Duration::from_millis(150));
+    lc::verif_set_status(&child.cell, 5);
+    lc::verif_set_status(&child.cell, 6);
+    drop(guard);
+    let linked = th.join().unwrap();
+    let kids = lc::verif_children(&sup.cell).map(|v| v.len()).unwrap_or(0);
+    println!("link_ret={}", linked as u8);
+    println!("child_status={}", child.cell.get_status() as u8);
+    println!("child_has_supervisor={}", child.cell.try_get_supervisor().is_some() as u8);
+    println!("sup_children={}", kids);
+}
